@@ -1,5 +1,5 @@
 (* Properties/C17.v — Execution statistics count attempts, executions, retries and hedges exactly. *)
-From FS Require Import Model.Exec Proofs.ExecProofs Proofs.ExecStats Proofs.ExecCheckerProofs Corr.C17.
+From FS Require Import Model.Exec Proofs.ExecProofs Proofs.ExecStats Proofs.ExecCheckerProofs Proofs.ExecTimes Corr.C17.
 
 (* In the complete log of any execution through any stack of retry, breaker, rate limiter, bulkhead,
    timeout, fallback, cache and (as the innermost policy) hedge policies, with any script, cancellation
@@ -26,3 +26,20 @@ Theorem C17_checker_accepts_model : forall fuel stack now ext key b l k c script
   stats_ok [] 0 0 0 (match evs with e :: _ => e_time e | [] => 0 end) evs = true.
 Proof. exact c17_checker_accepts_model. Qed.
 Print Assumptions C17_checker_accepts_model.
+
+(* Start times: in the complete log of any execution through any stack (incl. what hedge attempts still running when
+   the execution returns log afterwards) every observer is shown StartTime = the instant the execution began (never
+   later than the observation), and every AttemptStartTime it can read lies between that instant and the instant of
+   the observation -- so ElapsedTime and ElapsedAttemptTime are never negative and ElapsedAttemptTime <= ElapsedTime. *)
+Theorem C17_start_times_exact : forall fuel stack now ext key b l k c script,
+  Forall (fun e => e_start e = now /\ now <= e_time e /\ (e_astart e = -1 \/ now <= e_astart e <= e_time e))
+         (w_trace (drain (snd (execute fuel stack (fresh_world now ext key b l k c script))))).
+Proof. exact start_times_exact. Qed.
+Print Assumptions C17_start_times_exact.
+
+(* used by the correspondence: the executable form (times_ok) accepts every model log *)
+Theorem C17_start_times_checker_accepts_model : forall fuel stack now ext key b l k c script,
+  forallb (fun e => (e_start e =? now) && ((e_astart e =? -1) || ((now <=? e_astart e) && (e_astart e <=? e_time e))))
+          (rev (w_trace (drain (snd (execute fuel stack (fresh_world now ext key b l k c script)))))) = true.
+Proof. exact start_times_checker_accepts_model. Qed.
+Print Assumptions C17_start_times_checker_accepts_model.
